@@ -532,6 +532,8 @@ def appendLongLegOnlyLastLit : MFM Unit := do
     let pq ← liftErr (omega.multiply lighting)
     let newG ← liftErr (pq.multiply g)
     if (← isIncluded newG) then throw .dependent
+    -- `g` becomes a leg of length one attached to the centre: same dependency test as `append_to_center`
+    if longLeg.length == 2 then checkDependencyOneLeg newG
     remove lastV
     append lighting center
     replace g newG
